@@ -6,7 +6,8 @@ package jsonrpc
 // This file contains comments only; it is compiled only with the build tag `verif` and adds no code.
 
 //@ property C10 units: normalizeID, (*wsConn).cancelCtx, (*wsConn).handleChanMessage, (*wsConn).handleChanClose, (*wsConn).handleResponse, (*wsConn).handleFrame, (*wsConn).frameExecutor, (*wsConn).handleCall, (*wsConn).readFrame, (*wsConn).nextMessage, (*handler).handleReader, (*handler).handle, rpcError, (*handler).createError, (response).MarshalJSON, (*handler).getSpan, (*JSONRPCError).val, (*rpcFunc).processResponse, (*client).makeOutChan$1$2
-//@ property C13 units: doCall, (*handler).handle
+//@ property C09 units: (*handler).handleReader, (*handler).handle, (*handler).handle$1, rpcError, rpcError$1, (response).MarshalJSON, normalizeID, withLazyWriter, (*wsConn).handleCall, (*wsConn).handleOutChans$1
+//@ property C13 units: doCall, (*handler).handle, rpcError$1
 //@ property C05 units: (*backoff).next
 
 //@ -- ------------------------------------------------------------------ shared vocabulary
@@ -18,6 +19,11 @@ package jsonrpc
 //@ axiom marshalable-typed-values: forall v: U :: rImplements(rtypeOf(v), marshalableRT) ==> istype(ifaceOf(v), #marshalable)
 //@ pred wfRpcFunc(fn) := fn.client != nil && fn.nout >= 0 && (fn.valOut == -1 || (0 <= fn.valOut && fn.valOut < fn.nout)) && (fn.errOut == -1 || (0 <= fn.errOut && fn.errOut < fn.nout)) && (fn.hasCtx == 0 || fn.hasCtx == 1)
 
+//@ -- output automaton of an HTTP reply: 0 empty, 1 one value, 2 '[' written, 3 array ends with a value, 4 array ends with ',', 5 closed, 9 malformed
+//@ pred tokOf(b) := ite(isbytes(b, "["), 1, ite(isbytes(b, ","), 2, ite(isbytes(b, "]"), 3, 0)))
+//@ pred step(s, t) := ite(t == 1, ite(s == 0, 2, 9), ite(t == 2, ite(s == 3, 4, 9), ite(t == 3, ite(s == 2 || s == 3, 5, 9), ite(s == 2 || s == 4, 3, 9))))
+//@ pred selected(s, m) := ite(present(s.methods, m), s.methods[m], s.methods[s.aliasedMethods[m]])
+//@ pred resolvable(s, m) := present(s.methods, m) || (s.aliasedMethods != nil && present(s.aliasedMethods, m) && present(s.methods, s.aliasedMethods[m]))
 //@ -- ------------------------------------------------------------------ locks
 //@ lockorder wsConn.writeLk < wsConn.errLk
 //@ lockorder wsConn.writeLk < wsConn.inflightLk
@@ -27,6 +33,7 @@ package jsonrpc
 //@ guards wsConn.chanHandlersLk: wsConn.chanHandlers inv sinks-ok: self.chanHandlers != nil && (forall k :: present(self.chanHandlers, k) ==> self.chanHandlers[k] != nil && self.chanHandlers[k].cb != nil) [C10,C14]
 //@ guards wsConn.errLk: wsConn.incomingErr [C14]
 
+//@ alias (reqestHandler).handle = (*handler).handle
 //@ -- function types: what every value of the type guarantees (each concrete function of that type is verified against it)
 //@ functype makeChanSink
 //@   ensures result1 != nil
@@ -53,6 +60,13 @@ package jsonrpc
 //@ func (*wsConn).handleCall
 //@   requires idok(frame.ID)
 //@   nopanic [C10]
+//@   at go handle: assert writer-iff-id: (frame.ID != nil) == isfn($3, "(*wsConn).nextWriter") && (frame.ID == nil) == isfn($3, "(*wsConn).handleCall$1") [C09,C04]
+//@   at go handle: assert request-copied-from-frame: $2.ID == frame.ID && $2.Method == frame.Method && $2.Params == frame.Params && $2.Jsonrpc == frame.Jsonrpc [C09,C01,C02]
+
+//@ func (*wsConn).handleOutChans$1
+//@   requires w != nil
+//@   at call (*encoding/json.Encoder).Encode: assert channel-reply-shape: resp.Jsonrpc == "2.0" && resp.ID == registration.reqID && resp.Error == nil [C09,C07]
+//@   ensures one-value: calls(Encode) == 1 [C09]
 
 //@ func (*wsConn).handleFrame
 //@   requires idok(frame.ID)
@@ -86,6 +100,22 @@ package jsonrpc
 //@   loop 1 invariant not-size-rejected: !sizeRejected [C10]
 //@   ensures reject-exactly-above-limit: readErr == nil ==> (sizeRejected == (nread > s.maxRequestSize)) [C10]
 //@   ensures oversize-never-handled: sizeRejected ==> calls(handle) == 0 && calls(rpcError) == 1 [C10]
+//@   ghost ost : Int = 0
+//@   ghost rpcCode : Int = 0
+//@   at call (io.Writer).Write: assert value-token-nonempty: tokOf($1) == 0 ==> len($1) > 0 [C09]
+//@   at call (io.Writer).Write: set ost = step(ost, tokOf($1))
+//@   at ret dyn:rpcError: set ost = ite(isfn($0, "(*handler).handleReader$1"), ite(ost == 0, 1, 9), ost)
+//@   at ret handle: set ost = ite(isfn($3, "(*handler).handleReader$1"), ite(ost == 0, ite(nondetBool(), 1, 0), 9), ost)
+//@   at call dyn:rpcError: set rpcCode = $2
+//@   at call dyn:rpcError: assert protocol-error-code: $2 == -32700 || $2 == -32600 [C09]
+//@   ghost lastMsg : U = nil
+//@   at call xerrors.New: set lastMsg = $0
+//@   at call xerrors.Errorf: set lastMsg = $0
+//@   at call dyn:rpcError: assert codes-match-causes: (lastMsg == "Invalid request" ==> $2 == -32600) && (lastMsg == "Parse error" ==> $2 == -32700) && ($2 == -32600 ==> reqSize == 0 || (defined(reqs) && len(reqs) == 0)) [C09]
+//@   at call handle: assert id-normalised-before-dispatch: idok($2.ID) [C09,C02]
+//@   at call handle: assert batch-elements-buffered: (ost == 0) == isfn($3, "(*handler).handleReader$1") [C09]
+//@   loop 1 invariant array-open: (ost == 2 || ost == 3) && wroteElem == (ost == 3) [C09]
+//@   ensures wellformed-output: ost == 0 || ost == 1 || ost == 5 [C09]
 //@   nopanic [C10]
 
 //@ func (*handler).handle
@@ -95,6 +125,24 @@ package jsonrpc
 //@   ghost callErr : U = nil
 //@   at ret doCall: set callErr = $result1
 //@   ensures done-always-runs: calls(done) >= 1 [C13,C06,C15]
+//@   ghost rpcCode : Int = 0
+//@   ghost chanDeferred : Bool = false
+//@   at call dyn:rpcError: set rpcCode = $2
+//@   at ret dyn:chOut: set chanDeferred = $result0 == nil
+//@   at call dyn:rpcError: assert error-reply-names-request: $1 != nil && $1.ID == req.ID && $0 == w [C09,C02]
+//@   at call withLazyWriter: assert reply-echoes-id-and-version: resp.ID == req.ID && resp.Jsonrpc == "2.0" && $0 == w [C09,C02]
+//@   at call withLazyWriter: assert reply-only-for-id-bearing: req.ID != nil [C09,C04]
+//@   ensures at-most-one-reply: calls(rpcError) + calls(withLazyWriter) <= 1 [C09,C02]
+//@   ensures id-bearing-gets-exactly-one-reply: req.ID != nil && !chanDeferred ==> calls(rpcError) + calls(withLazyWriter) == 1 [C09,C02]
+//@   ensures channel-reply-left-to-forwarder: chanDeferred ==> calls(rpcError) + calls(withLazyWriter) == 0 [C09,C07]
+//@   ensures unknown-method-is-32601-and-not-run: !resolvable(s, req.Method) ==> rpcCode == -32601 && calls(rpcError) == 1 && calls(doCall) == 0 [C09,C12]
+//@   ensures protocol-errors-never-run-handler: (rpcCode == -32601 || rpcCode == -32602 || rpcCode == -32700) ==> calls(doCall) == 0 [C09,C12]
+//@   ghost lastMsg : U = nil
+//@   at call fmt.Errorf: set lastMsg = $0
+//@   at call xerrors.Errorf: set lastMsg = $0
+//@   at call dyn:rpcError: assert codes-match-causes: (lastMsg == "wrong param count (method '%s'): %d != %d" ==> $2 == -32602) && (lastMsg == "method '%s' not found" ==> $2 == -32601) && ($2 == -32602 ==> len(ps) != handler.nParams) && ($2 == -32601 ==> !resolvable(s, req.Method) || chOut == nil) && ($2 == 0 ==> callErr != nil) [C09,C12]
+//@   loop 1 invariant arity-checked-before-decoding: len(ps) == handler.nParams [C09,C12]
+//@   loop 1 invariant nothing-replied-or-run-yet: rpcCode == 0 && calls(rpcError) == 0 && calls(doCall) == 0 && calls(withLazyWriter) == 0 && callErr == nil && !chanDeferred [C09,C12,C13,C04]
 //@   ensures panic-gets-one-error-reply: callErr != nil ==> calls(rpcError) == 1 && calls(withLazyWriter) == 0 [C13,C09]
 //@   nopanic [C10]
 
@@ -102,6 +150,21 @@ package jsonrpc
 //@   modifies nothing
 //@   requires wf != nil
 //@   nopanic [C10]
+//@   ensures one-callback: calls(wf) == 1 [C09]
+
+//@ func rpcError$1
+//@   requires w != nil
+//@   at call (*encoding/json.Encoder).Encode: assert error-object-shape: resp.Jsonrpc == "2.0" && resp.ID == req.ID && resp.Error != nil && resp.Error.Code == code && resp.Result == nil && resp.Error.Data == nil && len(resp.Error.Meta) == 0 [C09,C13]
+//@   ensures one-value: calls(Encode) == 1 [C09]
+
+//@ func (*handler).handle$1
+//@   requires w != nil
+//@   ensures one-value: calls(Encode) == 1 [C09]
+
+//@ func withLazyWriter
+//@   modifies nothing
+//@   requires cb != nil
+//@   ensures one-callback: calls(cb) == 1 [C09,C14]
 
 //@ func (*handler).createError
 //@   modifies nothing
@@ -116,6 +179,9 @@ package jsonrpc
 //@ func (response).MarshalJSON
 //@   modifies nothing
 //@   nopanic [C10]
+//@   at call encoding/json.Marshal: assert result-xor-error: present(data, "jsonrpc") && present(data, "id") && present(data, "error") != present(data, "result") && present(data, "error") == (r.Error != nil) [C09,C11]
+//@   at call encoding/json.Marshal: assert members-are-the-fields: data["jsonrpc"] == box(r.Jsonrpc) && data["id"] == r.ID && (r.Error == nil ==> data["result"] == r.Result) && unbox($0, #map[string]interface{}) == data [C09,C01]
+//@   ensures one-marshal: calls(Marshal) == 1 [C09]
 
 //@ func (*JSONRPCError).val
 //@   modifies nothing
@@ -133,7 +199,7 @@ package jsonrpc
 //@   ensures panic-is-error: didpanic() ==> result1 != nil && result1 == panicErr [C13]
 //@   ghost panicErr : U = nil
 //@   at ret xerrors.Errorf: set panicErr = $result0
-//@   at call xerrors.Errorf: assert error-mentions-method-and-payload: unbox($1[0], #string) == methodName && $1[1] == i && i != nil [C13]
+//@   at call xerrors.Errorf: assert error-mentions-method-and-raw-payload: unbox($1[0], #string) == methodName && $1[1] == i && i != nil [C13]
 
 //@ func (*backoff).next
 //@   modifies nothing
